@@ -454,7 +454,7 @@ func runC10(c *Ctx) {
 					lastDeal = i
 				case e.Kind == "call" && e.Fn != nil && (e.Fn == pub || (ix.Info[e.Fn] != nil && ix.Info[e.Fn].TCalls[pub] && !eg.MayEmit[e.Fn])):
 					upd = i
-				case e.Kind == "call" && e.Fn == eg.Emit:
+				case func() bool { _, ok := eg.emitName(e); return ok }():
 					if emit < 0 {
 						emit = i
 					}
@@ -468,7 +468,7 @@ func runC10(c *Ctx) {
 				bad = append(bad, "cards are dealt and the next event is emitted without re-evaluating the hands: path ["+ps.CondString()+"]")
 			}
 		}
-		c.floor("recompute-on-deal", "dealing paths", nDeal, 3)
+		c.floor("recompute-on-deal", "dealing paths", nDeal, 2)
 		c.check(len(bad) == 0, "recompute-on-deal", fnKey(initRound), p.FnPos(initRound), "every dealing path re-evaluates all hands before the next event", "published hands can be stale", uniq(bad, 3)...)
 	}
 
